@@ -215,14 +215,28 @@ def m_takewhile(interp, args, kwargs):
         return gen()
     st = interp.st
     cc = class_of(interp, pred)
+    t = src.t
+    # the result is computed once per (class, string term) and path; it is also the value of an uninterpreted
+    # function of the string, so that equal strings (different terms) provably have equal results
+    cache = st.ghost.setdefault('__takewhile__', {})
+    key = (cc.index, t.get_id())
+    ent = cache.get(key)
+    if ent is not None and strings._visible(interp, ent[1]):
+        return SCharIter(ent[0])
+    f = z3.Function('takewhile!%d' % cc.index, z3.StringSort(), z3.StringSort())
     whole = apply(interp, cc, src)
     if st.fork(whole):
-        return SCharIter(src)
-    t = src.t
-    p, c, r = strings.decompose(interp, t, [None, 1, None], 'takewhile')
-    st.assume(cc.fn(p))
-    st.assume(z3.Not(cc.at(c)))
-    return SCharIter(wrap(p))
+        st.assume(t == f(t))
+        res = src
+    else:
+        p, c, r = strings.decompose(interp, t, [None, 1, None], 'takewhile')
+        _make_relevant(interp, cc, p, 0)
+        st.assume(cc.fn(p))
+        st.assume(z3.Not(cc.at(c)))
+        st.assume(p == f(t))
+        res = wrap(p)
+    cache[key] = (res, strings._dec(interp, []), t)
+    return SCharIter(res)
 
 
 # ------------------------------------------------------------------------------ str.isX() / str.strip() by character class
